@@ -101,6 +101,10 @@ def gen_case(draw, close=False):
                 if e2 > s2:
                     spec["pair"] = [s2, e2]
                     spec["pair_orientation"] = draw(st.sampled_from(["FR", "FF"]))
+                    # the mates (which may overlap) have base qualities of their own
+                    spec["pair_qual"] = draw(st.sampled_from([40, 40, 12, 27]))
+        if draw(st.integers(0, 2)) == 0:
+            spec["qual"] = draw(st.sampled_from([12, 27, 33]))
         if not spec["segments"]:
             continue
         if draw(st.integers(0, 3)) == 0:
